@@ -514,8 +514,14 @@ func c08Attachment(ck *c08Checker) int64 {
 							{ObjectMeta: metav1.ObjectMeta{Name: "l2all"}, Spec: metallbv1beta1.L2AdvertisementSpec{Interfaces: []string{"eth7"}}}}
 					}
 					if proto != "l2" {
+						bns := ns
+						if proto == "both" && len(ns) == 2 {
+							// next to an L2 advertisement with two selectors (either one), a BGP advertisement with ONE selector
+							// that demands both: the two lists print alike when joined by commas but select different nodes
+							bns = []metav1.LabelSelector{c08MergeSelectors(ns[0], ns[1])}
+						}
 						r.BGPAdvs = []metallbv1beta1.BGPAdvertisement{{ObjectMeta: metav1.ObjectMeta{Name: "bgpa"}, Spec: metallbv1beta1.BGPAdvertisementSpec{
-							IPAddressPools: nm, IPAddressPoolSelectors: ps, NodeSelectors: ns, LocalPref: 7}},
+							IPAddressPools: nm, IPAddressPoolSelectors: ps, NodeSelectors: bns, LocalPref: 7}},
 							{ObjectMeta: metav1.ObjectMeta{Name: "bgpall"}, Spec: metallbv1beta1.BGPAdvertisementSpec{LocalPref: 7}}}
 					}
 					c := c08Case{Kind: "attach", Resources: r}
@@ -563,6 +569,20 @@ func matchSel(sels []metav1.LabelSelector, lbl map[string]string) bool {
 		}
 	}
 	return false
+}
+
+func c08MergeSelectors(a, b metav1.LabelSelector) metav1.LabelSelector {
+	out := metav1.LabelSelector{MatchLabels: map[string]string{}}
+	for _, x := range []metav1.LabelSelector{a, b} {
+		for k, v := range x.MatchLabels {
+			out.MatchLabels[k] = v
+		}
+		out.MatchExpressions = append(out.MatchExpressions, x.MatchExpressions...)
+	}
+	if len(out.MatchLabels) == 0 {
+		out.MatchLabels = nil
+	}
+	return out
 }
 
 func lexp(k string, op metav1.LabelSelectorOperator, vals ...string) metav1.LabelSelector {
